@@ -140,6 +140,17 @@ func runC08(e *Env) error {
 			}
 		}
 	}
+	// (c') string literals holding runs of blanks, tabs and line breaks keep every byte in every position
+	for _, lit := range []string{"'a  b'", "\"x\ty\"", "'p\nq'", "'  lead'", "'trail  '", "'a   in   b'", "'x  ~  y'", "\"q \t \n r\"", "'one  two' ~ \"  three\"", "['a  b', 'c\td']|join('  ')"} {
+		ref := runImpl(exprCase(lit, ctx))
+		if ref.Class != "" {
+			continue
+		}
+		if err := positions(e, lit, ctx, ref.Out); err != nil {
+			return err
+		}
+		r.Hit("whitespace-in-literal")
+	}
 	// (d) short-circuit / conditional
 	for _, sc := range []struct {
 		src   string
